@@ -175,6 +175,68 @@ def rule_merge_precedence(ctx):
                 okc = other[0] == 'call' and other[1].endswith('::deleted') and other[3] == ('deref', F1)
                 obs.append(Ob('MERGE-PRECEDENCE', f, c, 'both elements are dropped only if SkipDeleted and the newer one is a tombstone',
                               fmt_term(t), OK if okc else VIOLATED, arm='skip'))
+    # bulk emission: std::copy / std::move(algorithm) into `result` may run only once one of the ranges is exhausted (after the
+    # loop), or under a guard that establishes that one whole range precedes the other *strictly*
+    for f in fs:
+        g = graph(f)
+        p = [x['name'] for x in f.params]
+        if len(p) != 5:
+            continue
+        F1, L1, F2, L2, R = [('param', n) for n in p]
+        loops = [b for b in g.reach if g.cond(b) and g.blocks[b].get('term_c') in ('WhileStmt', 'ForStmt')]
+        for c in f.calls(pred=lambda nd: nd.get('ct') in ('std::copy', 'std::move', 'std::copy_n') and len(nd.get('args', [])) == 3):
+            if not reachable(f, c):
+                continue
+            pos = f.block_of(c)[0]
+            # after the loop: every path to the call passes through the loop condition (all blocks of a short-circuit
+            # condition count) and the call cannot re-enter the loop
+            after = False
+            for lb in loops:
+                inside = set(f.walk(g.cond(lb)))
+                head = {b for b in g.reach if g.cond(b) and (b == lb or g.cond(b) in inside)}
+                if g.must_pass(g.entry, pos, head) and not any(g.paths_exist(pos, h) for h in head):
+                    after = True
+            conds = conds_of(f, c)
+            data_guard = None
+            flat = []
+            for (t, lab, cn) in conds:
+                # a true conjunction makes every conjunct true, a false disjunction makes every disjunct false
+                st = [strip_cast(t)]
+                while st:
+                    x = st.pop()
+                    if x[0] == 'op' and len(x) == 4 and ((x[1] == '&&' and lab is True) or (x[1] == '||' and lab is False)):
+                        st += [strip_cast(x[2]), strip_cast(x[3])]
+                    else:
+                        flat.append((x, lab, cn))
+            for (t, lab, cn) in flat:
+                t0 = strip_cast(t)
+                neg = False
+                while t0[0] == 'un' and t0[1] == '!':
+                    neg = not neg
+                    t0 = strip_cast(t0[2])
+                if t0[0] == 'op' and t0[1] in ('<', '<=', '>', '>=') and any(x[0] == 'deref' or (x[0] == 'call' and x[1] == 'std::prev') for x in subterms(t0)):
+                    data_guard = (t0, (lab is True) != neg, t)
+            req = 'elements are emitted in bulk only once one of the two ranges is exhausted, or under a guard that puts one whole range strictly before the other'
+            if data_guard is None and (after or not loops):
+                obs.append(Ob('MERGE-PRECEDENCE', f, c, req, 'tail copy after the merge loop', OK, arm='bulk'))
+            elif data_guard is None:
+                obs.append(Ob('MERGE-PRECEDENCE', f, c, req, 'bulk copy inside or before the merge loop without a recognised guard', UNDECIDED, arm='bulk'))
+            else:
+                t0, truth, t = data_guard
+                # strict separation holds only on the *true* side of `<` / `>` (or the false side of `<=` / `>=`)
+                strict = (t0[1] in ('<', '>')) == truth
+                # which range comes first according to the guard: the side that is smaller
+                lo_side, hi_side = (t0[2], t0[3]) if (t0[1] in ('<', '<=')) == truth else (t0[3], t0[2])
+                first_rng = 1 if any(x in (F1, L1) for x in subterms(lo_side)) else 2 if any(x in (F2, L2) for x in subterms(lo_side)) else 0
+                a = f.n(c)['args']
+                this_rng = 1 if strip_cast(f.term(a[0], inline=False)) == F1 else 2 if strip_cast(f.term(a[0], inline=False)) == F2 else 0
+                second = strip_cast(f.term(a[2], inline=False))[0] == 'call'      # its output continues another bulk emission
+                order_ok = first_rng and this_rng and ((this_rng == first_rng) != second)
+                msg = ('strict separation of the two ranges' if strict else 'only establishes <=: an element present in both ranges is emitted twice (the older copy survives)')
+                if strict and not order_ok:
+                    msg = f"range {this_rng} is emitted {'second' if second else 'first'} although the guard puts range {first_rng} first"
+                obs.append(Ob('MERGE-PRECEDENCE', f, c, req, f"guard `{fmt_term(t)[:70]}` taken {'true' if truth else 'false'}: " + msg,
+                              OK if (strict and order_ok) else VIOLATED, arm='bulk'))
     # call sites: first range = accumulator of newer levels, second range = the (older) level
     for name in ('pairwise_merge', 'range'):
         for f in ctx.need(D + '::' + name, ctx.units):
@@ -313,11 +375,42 @@ def rule_tomb_escape_point(ctx):
                 if ok and name == 'lower_bound':
                     # keys erased in newer levels must also be excluded
                     site = c if direct else asg[0]
-                    shadow = any(any(s[0] == 'call' and s[1].endswith('::find') and s[3] is not None and s[3][0] == 'local' and s[3][1] == 'deleted' for s in subterms(t)) and lab is True
-                                 for (t, lab, cn) in conds_of(f, site))
+                    # the collection of keys erased in newer levels: a local container that receives insertions; the path must carry
+                    # a membership test on it (member find/count/contains, or std::find / std::binary_search over its range)
+                    colls = set()
+                    for cc in f.calls(pred=lambda nd: nd.get('cn') in ('emplace', 'insert', 'push_back', 'emplace_back')):
+                        o_ = f.n(cc).get('obj')
+                        if o_:
+                            ot = strip_cast(f.term(o_, inline=False))
+                            if ot[0] == 'local':
+                                colls.add(ot[:2])
+                    shadow = mention = False
+                    for (t, lab, cn) in conds_of(f, site):
+                        for s_ in subterms(t):
+                            if s_[0] != 'call':
+                                continue
+                            nm = s_[1].rsplit('::', 1)[-1]
+                            on_member = len(s_) > 3 and s_[3] is not None and strip_cast(s_[3])[0] == 'local' and strip_cast(s_[3])[:2] in colls
+                            on_range = any(x[0] == 'call' and x[1].rsplit('::', 1)[-1] in ('begin', 'end', 'cbegin', 'cend') and len(x) > 3 and x[3] is not None
+                                           and strip_cast(x[3])[0] == 'local' and strip_cast(x[3])[:2] in colls for a_ in s_[2] for x in subterms(a_))
+                            if (on_member and nm in ('find', 'count', 'contains')) or (on_range and nm in ('find', 'binary_search', 'count', 'any_of', 'none_of')):
+                                mention = True
+                                tt = strip_cast(t)
+                                # `X.find(k) == X.end()` / `std::find(..) == X.end()` true, `count == 0` true, `!contains` ...: accepted when
+                                # the comparison is the usual "not found" spelling; other spellings stay undecided
+                                if lab is True and tt[0] == 'op' and tt[1] == '==' and nm == 'find':
+                                    shadow = True
+                                elif nm in ('count', 'contains', 'binary_search', 'any_of') and ((lab is True and ((tt[0] == 'op' and tt[1] == '==' and strip_cast(tt[3]) == ('lit', 0)) or (tt[0] == 'un' and tt[1] == '!'))) or (lab is False and tt[0] == 'call')):
+                                    shadow = True
+                                elif nm == 'none_of' and lab is True:
+                                    shadow = True
                     if not shadow:
                         ok = False
-                        extra = '; but the key is not checked against the keys erased in newer levels'
+                        extra = '; but the key is not checked against the keys erased in newer levels' if not mention else '; the test against the keys erased in newer levels has an unrecognised shape'
+                        if mention:
+                            obs.append(Ob('TOMB-ESCAPE', f, c, 'an iterator to an item is handed out only on a path on which the item was found not deleted (and not shadowed by a newer tombstone)',
+                                          why + extra, UNDECIDED, arm=name))
+                            continue
                 obs.append(Ob('TOMB-ESCAPE', f, c, 'an iterator to an item is handed out only on a path on which the item was found not deleted (and not shadowed by a newer tombstone)',
                               why + extra, OK if ok else VIOLATED, arm=name))
     return obs
@@ -738,4 +831,5 @@ def rules_c06(ctx):
 
 
 def rules_c15(ctx):
-    return rule_index_sync(ctx)
+    # levels stay strictly sorted only if the merge emits each key once, in order (the per-branch and bulk-emission clauses)
+    return rule_index_sync(ctx) + [o for o in rule_merge_precedence(ctx) if o.arm in ('older-smaller', 'newer-smaller', 'tie', 'bulk')]
